@@ -93,11 +93,7 @@ Proof. vm_compute. reflexivity. Qed.
 Theorem C19_float_table_ok : cfg_ok fl float_cfg = true.
 Proof. vm_compute. reflexivity. Qed.
 
-(* FULL STATEMENT (not proved for the two flagged operators, sum and product):
-     forall e r d args vals v opt, to_rt float_cfg e = Some r -> ... -> denote float_cfg rho e = Some v ->
-       run float_cfg opt args (flatten (pp d r)) vals = ROk v
-   where denote = Some v says that every intermediate result is exactly representable (no_inexact).
-   '=' flagged commutative (example/minimal.go before the repair) refutes the regrouping law: *)
+(* the equality operator flagged commutative (example/minimal.go before the repair) refutes the regrouping law: *)
 Theorem regroup_ok_float_eq_refuted : ~ regroup_ok fl float_cfg_old.
 Proof. exact regroup_float_eq_refuted. Qed.
 
@@ -114,16 +110,26 @@ Proof. vm_compute. reflexivity. Qed.
 Theorem C19_float_old_regroup_on_grid_refuted : float_regroup_on_grid float_cfg_old = false.
 Proof. vm_compute. reflexivity. Qed.
 
-(* strongest proved statements: with the regrouping law of the flagged operators as the side condition ... *)
-Theorem C19_float_partial : regroup_ok fl float_cfg ->
-  forall e r d args vals v (opt : bool),
-    to_rt float_cfg e = Some r -> snames_ok e = true -> length args = length vals ->
-    denote float_cfg (rho_of args vals) e = Some v ->
-    run float_cfg opt args (flatten (pcfg_of float_cfg) (pp (pcfg_of float_cfg) d r)) vals = ROk v.
-Proof. exact (float_correct_partial float_cfg C19_float_table_ok). Qed.
+(* the flagged operators of the regenerated table are among sum and product ... *)
+Theorem C19_float_flags_justified : float_flags_justified ex_float_ops = true.
+Proof. vm_compute. reflexivity. Qed.
 
-(* ... and without any side condition for the same table with no operator flagged (every other branch of the
-   optimizer and the whole generator: folding, unary, constant if, static functions, priorities, unary minus) *)
+(* ... whose regrouping law holds for ALL operands (Sem/NumProofs.v: exact dyadic addition and multiplication are
+   commutative and associative through the normalisation, signed zeros included; an operand that is not the normal
+   form of a binary64 value is rejected by the operator): whenever c1 op c2, c1 op x and (c1 op x) op c2 are
+   exactly representable, (c1 op c2) op x is, with the same value *)
+Theorem C19_float_regroup_ok : regroup_ok fl float_cfg.
+Proof. exact (float_regroup_ok C19_float_flags_justified). Qed.
+
+(* the float instance, under no_inexact only: [denote ... = Some v] says that every intermediate result of the
+   source expression is exactly representable (None = inexact / outside the exact model) *)
+Theorem C19_float : forall e r d args vals v (opt : bool),
+  to_rt float_cfg e = Some r -> snames_ok e = true -> length args = length vals ->
+  denote float_cfg (rho_of args vals) e = Some v ->
+  run float_cfg opt args (flatten (pcfg_of float_cfg) (pp (pcfg_of float_cfg) d r)) vals = ROk v.
+Proof. exact (float_correct C19_float_flags_justified C19_float_table_ok). Qed.
+
+(* the same table with no operator flagged (no regrouping at all) *)
 Theorem C19_float_unflagged : 
   forall e r d args vals v (opt : bool),
     to_rt float_cfg_unflagged e = Some r -> snames_ok e = true -> length args = length vals ->
@@ -132,12 +138,11 @@ Theorem C19_float_unflagged :
         (flatten (pcfg_of float_cfg_unflagged) (pp (pcfg_of float_cfg_unflagged) d r)) vals = ROk v.
 Proof. exact (float_correct_unflagged float_cfg_unflagged eq_refl eq_refl). Qed.
 
-Theorem C19_float_ast_partial : regroup_ok fl float_cfg ->
-  forall a args vals v,
-    names_ok fl float_cfg a = true -> gen_check float_cfg args a = true -> length args = length vals ->
-    geval fl float_cfg (combine args vals) a = Some v ->
-    forall opt : bool, run_gast float_cfg args (if opt then opt_all float_cfg [] a else a) vals = ROk v.
-Proof. exact (float_ast_correct_partial float_cfg). Qed.
+Theorem C19_float_ast : forall a args vals v,
+  names_ok fl float_cfg a = true -> gen_check float_cfg args a = true -> length args = length vals ->
+  geval fl float_cfg (combine args vals) a = Some v ->
+  forall opt : bool, run_gast float_cfg args (if opt then opt_all float_cfg [] a else a) vals = ROk v.
+Proof. exact (float_ast_correct C19_float_flags_justified). Qed.
 
 (* ---------- non-vacuity ---------- *)
 (* !(a & b) | c  written with full parentheses, a=true b=true c=false; the optimizer on *)
@@ -165,6 +170,14 @@ Example C19_old_table_witness :
   run float_cfg true [[97]] ts [FFin 1 1] = ROk (FFin 1 0).
 Proof. vm_compute. repeat split. Qed.
 
+(* (2 + a) + 0.5 with the optimizer: regrouped to 2.5 + a; and (a * 2) * 0.5 at a = -0 keeps the sign of zero *)
+Example C19_nonvacuous_float_regroup :
+  opt_all float_cfg [] (GOp [43] (GOp [43] (GConst (FFin 1 1)) (GIdent [97] false)) (GConst (FFin 1 (-1))))
+  = GOp [43] (GConst (FFin 5 (-1))) (GIdent [97] false) /\
+  run_gast float_cfg [[97]] (opt_all float_cfg [] (GOp [42] (GOp [42] (GIdent [97] false) (GConst (FFin 1 1))) (GConst (FFin 1 (-1)))))
+           [FNegZero] = ROk FNegZero.
+Proof. vm_compute. split; reflexivity. Qed.
+
 Print Assumptions C19_generic.
 Print Assumptions C19_generic_ast.
 Print Assumptions C19_exec_sound.
@@ -181,6 +194,8 @@ Print Assumptions regroup_ok_float_eq_refuted.
 Print Assumptions C19_float_flags_finite.
 Print Assumptions C19_float_regroup_on_grid_finite.
 Print Assumptions C19_float_old_regroup_on_grid_refuted.
-Print Assumptions C19_float_partial.
+Print Assumptions C19_float_flags_justified.
+Print Assumptions C19_float_regroup_ok.
+Print Assumptions C19_float.
 Print Assumptions C19_float_unflagged.
-Print Assumptions C19_float_ast_partial.
+Print Assumptions C19_float_ast.
